@@ -132,6 +132,8 @@ func exec(op string) vlib.Res {
 		return execNsec3(f)
 	case "adm":
 		return execAdm(f)
+	case "exp":
+		return execExp(f)
 	}
 	return vlib.Res{Impl: "bad-op"}
 }
